@@ -183,6 +183,13 @@ PLACES = {
     'exists:file-matcher-run': _pl([ASSERT], F4, ['p'],
                                    lambda u: ['file %s = "hi"' % u.fn('f'),
                                               'exists %s : run %s' % (u.fn('f'), u.P())]),
+    # negated forms: a process that cannot be waited for is a HARD_ERROR, not "the matcher does not hold"
+    'exists-negated:file-matcher-run': _pl([ASSERT], F4, ['p'],
+                                           lambda u: ['file %s = "hi"' % u.fn('f'),
+                                                      'exists ! %s : run %s' % (u.fn('f'), u.P(rc=1))]),
+    'contents-negated:text-matcher-run': _pl([ASSERT], F4, ['p'],
+                                             lambda u: ['file %s = "hi"' % u.fn('f'),
+                                                        'contents %s : ! run %s' % (u.fn('f'), u.P(rc=1))]),
     'exists:contents-text-matcher-run': _pl([ASSERT], F4, ['p'],
                                             lambda u: ['file %s = "hi"' % u.fn('f'),
                                                        'exists %s : contents run %s' % (u.fn('f'), u.P())]),
